@@ -32,6 +32,7 @@ import json
 import multiprocessing
 import os
 import re
+import signal
 import sys
 import time
 from collections import deque
@@ -372,35 +373,109 @@ def _install_counter():
     _MON.set_events(_TID, 0)
 
 
-def _parse(K, text, module, budget, counted):
+# Watchdog without per-case system calls: arming an interval timer four times per case costs more kernel time (timer
+# reprogramming on 16 virtual CPUs) than the parse itself.  A batch of cases runs under one periodic SIGALRM ticker;
+# a guarded section only stores its deadline, and the tick handler raises CaseTimeout once the deadline has passed.
+# Outside a ticker (replay, selftest) the guard falls back to runner.watchdog.
+
+TICK = 0.5
+_ticker_on = False
+_deadline = None
+
+
+def _tick(signum, frame):
+    global _deadline
+    d = _deadline
+    if d is not None and time.monotonic() >= d:
+        _deadline = None
+        raise CaseTimeout()
+
+
+class ticker:
+    def __enter__(self):
+        global _ticker_on, _deadline
+        self.mine = not _ticker_on
+        if self.mine:
+            _deadline = None
+            self.old = signal.signal(signal.SIGALRM, _tick)
+            signal.setitimer(signal.ITIMER_REAL, TICK, TICK)
+            _ticker_on = True
+        return self
+
+    def __exit__(self, *exc):
+        global _ticker_on, _deadline
+        if self.mine:
+            _deadline = None
+            signal.setitimer(signal.ITIMER_REAL, 0)
+            signal.signal(signal.SIGALRM, self.old)
+            _ticker_on = False
+        return False
+
+
+class guard:
+    """with guard(seconds): ...   raises CaseTimeout in the body after seconds (+ at most one TICK)."""
+    def __init__(self, seconds):
+        self.seconds = seconds
+        self.wd = None
+
+    def __enter__(self):
+        global _deadline
+        if _ticker_on:
+            _deadline = time.monotonic() + self.seconds
+        else:
+            self.wd = runner.watchdog(self.seconds)
+            self.wd.__enter__()
+        return self
+
+    def __exit__(self, *exc):
+        global _deadline
+        _deadline = None
+        if self.wd is not None:
+            return self.wd.__exit__(*exc)
+        return False
+
+
+class counting:
+    """Call events are switched on once per case (every switch makes CPython re-instrument each function on its next
+    call, which costs more than the parse of a short text); the sections that are budgeted set the counter, in between
+    it is disarmed."""
+    def __enter__(self):
+        global _left
+        _left = _DISARMED
+        _MON.set_events(_TID, _CALL)
+        return self
+
+    def __exit__(self, *exc):
+        global _left
+        _left = _DISARMED
+        _MON.set_events(_TID, 0)
+        return False
+
+
+def _parse(K, text, module, budget):
     """One real parse.  -> (outcome, calls).  outcome: ('ok', end_index, program) | ('exc', class) | ('budget',).
-    CaseTimeout propagates to the caller."""
+    Runs inside the caller's `counting` and watchdog; CaseTimeout propagates to the caller."""
     global _left, _blown
     K._module = module
-    _left = budget
+    used = 0
     _blown = False
+    _left = budget
     try:
-        with runner.watchdog(PARSE_TIMEOUT):
-            if counted:
-                _MON.set_events(_TID, _CALL)
-            try:
-                i, p = K.prog(text)
-            finally:
-                if counted:
-                    _MON.set_events(_TID, 0)
+        try:
+            i, p = K.prog(text)
+        finally:
+            used = budget - _left
+            _left = _DISARMED
         out = ('ok', i, p)
     except _Budget:
         out = ('budget',)
-    except CaseTimeout:
-        _MON.set_events(_TID, 0)
-        raise
     except RecursionError:
         out = ('exc', 'RecursionError')
     except Exception as e:       # noqa: BLE001 - every error class is a legitimate way for a parse to end
         out = ('exc', type(e).__name__)
     if _blown:                       # also when something between the callback and us swallowed the exception
         return ('budget',), budget + 1
-    return out, budget - _left
+    return out, used
 
 
 def _osig(o):
@@ -429,6 +504,10 @@ def _t_stub(x, y, z):
     return [y, z]
 
 
+def _fingerprint(dicts):
+    return tuple([(id(d), tuple(d), tuple(map(id, d.values()))) if len(d) <= 16 else (id(d), len(d)) for d in dicts])
+
+
 class State:
     def __init__(self):
         _install_counter()
@@ -443,8 +522,10 @@ class State:
 
     # -- parse interpreter snapshots
     def _shallow(self):
+        """Cheap per-case fingerprint: scope stack, names and value identities (the ~50-entry read-only system
+        dictionary by identity and size only; its contents are part of the deep snapshot taken per line)."""
         c = self.K._context
-        return (c._min_ctx_count, tuple([(id(d), tuple(d), tuple(map(id, d.values()))) for d in c._context]))
+        return (c._min_ctx_count, _fingerprint(c._context))
 
     def _deep(self):
         c = self.K._context
@@ -457,11 +538,11 @@ class State:
         sysd = list(E._context._context)[1:]
         tmpl = {}
         set_context_var(tmpl, KGSym('t'), _t_stub)
-        return {'E': E, 'sys': sysd, 'tmpl': tmpl, 'fp': tuple([(tuple(d), tuple(map(id, d.values()))) for d in sysd])}
+        return {'E': E, 'sys': sysd, 'tmpl': tmpl, 'fp': _fingerprint(sysd)}
 
     def reset_eval(self, j, text, cached):
         e = self.E[j]
-        if tuple([(tuple(d), tuple(map(id, d.values()))) for d in e['sys']]) != e['fp']:
+        if _fingerprint(e['sys']) != e['fp']:
             e = self.E[j] = self._mk_eval()              # an evaluation touched the system contexts: start over
         E = e['E']
         E._context._context = deque([dict(e['tmpl'])] + e['sys'])
@@ -510,21 +591,16 @@ def _evaluate(st, j, text, prog):
     global _left, _blown
     cached = prog[0] if len(prog) == 1 else prog
     E = st.reset_eval(j, text, cached)
-    _left = EVAL_BUDGET
     _blown = False
     exc = None
+    _left = EVAL_BUDGET
     try:
-        with runner.watchdog(EVAL_TIMEOUT):
-            _MON.set_events(_TID, _CALL)
-            try:
-                r = E(text)
-            finally:
-                _MON.set_events(_TID, 0)
+        try:
+            r = E(text)
+        finally:
+            _left = _DISARMED
     except _Budget:
         return ('skip', 'budget')
-    except CaseTimeout:
-        _MON.set_events(_TID, 0)
-        return ('skip', 'timeout')
     except MemoryError:
         return ('skip', 'memory')
     except RecursionError:
@@ -546,20 +622,36 @@ def _evaluate(st, j, text, prog):
 # ---------------------------------------------------------------------------------------------
 # the check of one case
 
-def check_case(st, text, module, count_second=True, do_eval=True):
+def check_case(st, text, module, do_eval=True, timeout=None):
     """-> (violations [(what, observed, expected, group)], info dict)."""
+    with counting():
+        return _check(st, text, module, do_eval, timeout)
+
+
+def _check(st, text, module, do_eval, timeout):
     K = st.K
     n = len(text)
     budget = BUDGET_FACTOR * (n + 2) * (n + 2)
     info = {'calls': 0, 'class': None, 'ohash': 0, 'nontrivial': True, 'eval': None, 'timeout': False}
     viol = []
+    o1 = o2 = None
     try:
-        o1, calls = _parse(K, text, module, budget, True)
+        with guard(timeout or PARSE_TIMEOUT):                # one watchdog for the pair of parses
+            o1, calls = _parse(K, text, module, budget)
+            if o1[0] != 'budget':
+                m1 = K._module
+                s1 = _osig(o1)
+                o2, _calls2 = _parse(K, text, module, budget)
+                m2 = K._module
     except CaseTimeout:
         info['timeout'] = True
         info['class'] = 'timeout'
-        viol.append(('termination', 'timeout', 'the parse ends (program or error) within %gs' % PARSE_TIMEOUT,
-                     'parse-does-not-terminate'))
+        if o1 is None:
+            viol.append(('termination', 'timeout', 'the parse ends (program or error) within %gs' % PARSE_TIMEOUT,
+                         'parse-does-not-terminate'))
+        else:
+            viol.append(('termination', 'timeout-on-second-parse', 'the second parse ends like the first (%s)'
+                         % _odesc(o1), 'parse-does-not-terminate'))
         return viol, info
     info['calls'] = calls
     if o1[0] == 'budget':
@@ -567,17 +659,6 @@ def check_case(st, text, module, count_second=True, do_eval=True):
         viol.append(('termination', 'over-budget', 'at most %d*(n+2)^2 = %d calls for n = %d characters'
                      % (BUDGET_FACTOR, budget, n), 'parse-work-unbounded'))
         return viol, info
-    m1 = K._module
-    s1 = _osig(o1)
-    try:
-        o2, calls2 = _parse(K, text, module, budget, count_second)
-    except CaseTimeout:
-        info['timeout'] = True
-        info['class'] = 'timeout'
-        viol.append(('termination', 'timeout-on-second-parse', 'the second parse ends like the first (%s)' % _odesc(o1),
-                     'parse-does-not-terminate'))
-        return viol, info
-    m2 = K._module
     s2 = _osig(o2)
     s1b = _osig(o1)
     if o1[0] == 'ok':
@@ -601,11 +682,8 @@ def check_case(st, text, module, count_second=True, do_eval=True):
         if s1[2] != s1b[2]:
             viol.append(('first-tree-mutated', sig_diff(s1[2], s1b[2]),
                          'the first program is not altered by parsing again', 'parse-mutates-earlier-program'))
-    if count_second and o2[0] != 'budget' and calls2 != calls:
-        viol.append(('work', '%d then %d calls' % (calls, calls2), 'the same work for the same text and module',
-                     'parse-not-repeatable'))
-    if m1 != m2:
-        viol.append(('module-after', '%s then %s' % (m1, m2), 'same parse-time module after both parses',
+    if m1 is not m2 and deep_sig(m1) != deep_sig(m2):
+        viol.append(('module-after', sig_diff(deep_sig(m1), deep_sig(m2)), 'same parse-time module after both parses',
                      'parse-not-repeatable'))
     if st._shallow() != st.shallow:
         viol.append(('variables', 'changed', 'parsing leaves every variable binding untouched',
@@ -614,21 +692,47 @@ def check_case(st, text, module, count_second=True, do_eval=True):
         if _SYSNAME.search(text):
             info['eval'] = 'not-eligible-system-name'
         else:
-            r1 = _evaluate(st, 0, text, o1[2])
-            r2 = _evaluate(st, 1, text, o2[2])
+            try:
+                with guard(EVAL_TIMEOUT):
+                    r1 = _evaluate(st, 0, text, o1[2])
+                    r2 = _evaluate(st, 1, text, o2[2])
+            except CaseTimeout:
+                r1 = r2 = ('skip', 'timeout')
             if r1[0] == 'skip' or r2[0] == 'skip':
                 info['eval'] = 'skipped-' + (r1[1] if r1[0] == 'skip' else r2[1])
             else:
                 info['eval'] = 'compared-' + r1[0]
-                same = r1[0] == r2[0] and (r1[1] == r2[1] if r1[0] == 'exc' else close(r1[1], r2[1], 0.0, 0.0))
+                if r1[0] != r2[0]:
+                    same = False
+                elif r1[0] == 'exc':
+                    same = r1[1] == r2[1]
+                else:
+                    same = close(r1[1], r2[1], 0.0, 0.0)
+                    if not same:              # default object reprs inside strings carry addresses: not a difference
+                        r1, r2 = ('ok', _mask(r1[1])), ('ok', _mask(r2[1]))
+                        same = close(r1[1], r2[1], 0.0, 0.0)
                 if not same:
                     viol.append(('eval', '%s then %s' % (_rdesc(r1), _rdesc(r2)),
                                  'evaluating the re-parsed program gives the same result', 'reparse-evaluates-differently'))
     return viol, info
 
 
+_ADDR = re.compile(r' at 0x[0-9a-fA-F]+')
+
+
+def _mask(c):
+    t = c[0]
+    if t == 's':
+        return ('s', _ADDR.sub(' at 0x?', c[1]))
+    if t == 'l':
+        return ('l', tuple(_mask(e) for e in c[1]))
+    if t == 'd':
+        return ('d', frozenset((_mask(k), _mask(v)) for k, v in c[1]))
+    return c
+
+
 def _rdesc(r):
-    return ('ok:' + show(r[1])[:80]) if r[0] == 'ok' else 'exc:' + r[1]
+    return ('ok:' + show(_mask(r[1]))[:80]) if r[0] == 'ok' else 'exc:' + r[1]
 
 
 def deep_check(st):
@@ -685,26 +789,33 @@ def make_violation(text, module, name, what, observed, expected, group, confirme
                       'what': what})
 
 
-def judge(st, text, module, name, count_second, do_eval, acc):
+def judge(st, text, module, name, do_eval, acc):
     """Fast path on the shared per-process interpreters; every violation is re-established on fresh interpreters."""
-    viol, info = check_case(st, text, module, count_second, do_eval)
-    if viol:
-        if info['timeout']:
-            confirmed = {v[0]: v for v in viol}
-        else:
-            fresh = State()
-            v2, _ = check_case(fresh, text, module, True, do_eval)
-            confirmed = {v[0]: v for v in v2}
+    viol, info = check_case(st, text, module, do_eval)
+    if not viol:
+        return info
+    # Second opinion on fresh interpreters, both parses counted.  A watchdog hit has to repeat with three times the
+    # time allowance: a starved worker on a busy machine is not a hang.
+    was_timeout = info['timeout']
+    fresh = State()
+    v2, info2 = check_case(fresh, text, module, do_eval, timeout=3 * PARSE_TIMEOUT if was_timeout else None)
+    seen = set()
+    out = []
+    for v in v2:
+        seen.add(v[0])
+        out.append(make_violation(text, module, name, v[0], v[1], v[2], v[3]))
+    if was_timeout:
+        if not info2['timeout']:
+            acc['watchdog_false_alarms'] += 1
+        info = info2
+    else:
         for v in viol:
-            c = confirmed.get(v[0])
-            acc['nviol'] += 1
-            if len(acc['viol']) < MAX_VIOL_PER_CHUNK:
-                if c is not None:
-                    acc['viol'].append(make_violation(text, module, name, c[0], c[1], c[2], c[3]))
-                else:
-                    acc['viol'].append(make_violation(text, module, name, v[0], v[1], v[2], v[3], confirmed=False))
-        if st._shallow() != st.shallow or any(v[0] == 'variables' for v in viol):
-            drop_state()
+            if v[0] not in seen:
+                out.append(make_violation(text, module, name, v[0], v[1], v[2], v[3], confirmed=False))
+    acc['nviol'] += len(out)
+    acc['viol'].extend(out[:max(0, MAX_VIOL_PER_CHUNK - len(acc['viol']))])
+    if st._shallow() != st.shallow or any(v[0] == 'variables' for v in viol):
+        drop_state()
     return info
 
 
@@ -719,7 +830,7 @@ def _digest(text, module):
 def _new_acc():
     return {'cases': 0, 'parses': 0, 'viol': [], 'nviol': 0, 'classes': {}, 'evals': {}, 'th': [], 'oh': [],
             'max_ratio': 0.0, 'max_ratio_text': '', 'max_calls': 0, 'max_calls_per_char': 0.0, 'items_done': 0,
-            'items_skipped': 0, 'cases_aborted': 0, 'timeouts': 0, 'done_ids': []}
+            'items_skipped': 0, 'cases_aborted': 0, 'timeouts': 0, 'watchdog_false_alarms': 0}
 
 
 def _account(acc, info, text, module):
@@ -744,47 +855,47 @@ def _account(acc, info, text, module):
 
 def make_worker(deadline, timeouts):
     """items: ('text', text, module) | ('long', name) | ('single', id, line) | ('double', id, line, part, parts)."""
-    def run_cases(st, texts, module, name, count_second, acc):
+    def run_cases(st, texts, module, name, acc):
         for text in texts:
             if timeouts.value >= MAX_TIMEOUTS:
                 acc['cases_aborted'] += 1
                 continue
-            info = judge(st, text, module, name, count_second, True, acc)
-            st = state()
+            info = judge(st, text, module, name, True, acc)
+            st = _STATE or state()
             if info['timeout']:
                 acc['timeouts'] += 1
-                with timeouts.get_lock():
-                    timeouts.value += 1
+                timeouts.value += 1            # lock-free shared counter: a lost update only delays the cut-off
             _account(acc, info, text, module)
         return st
 
     def work(items):
-        st = state()
         acc = _new_acc()
-        for it in items:
-            if time.time() > deadline:
-                acc['items_skipped'] += 1
-                continue
-            kind = it[0]
-            if kind == 'text':
-                st = run_cases(st, [it[1]], it[2], None, True, acc)
-            elif kind == 'long':
-                st = run_cases(st, [long_input(it[1])], None, it[1], True, acc)
-            elif kind == 'single':
-                st = run_cases(st, single_edits(it[2]), None, None, False, acc)
-            elif kind == 'double':
-                texts = double_edits(it[2])
-                st = run_cases(st, texts[it[3]::it[4]], None, None, False, acc)
-            if kind in ('single', 'double') and not deep_check(st):
-                acc['nviol'] += 1
-                acc['viol'].append(make_violation(it[2], None, None, 'variables-deep', 'changed',
-                                                  'no edit of this line changes a variable value when parsed',
-                                                  'parse-changes-variables'))
-                drop_state()
-                st = state()
-            acc['items_done'] += 1
-            if kind in ('single', 'double'):
-                acc['done_ids'].append(it[1] if kind == 'single' else (it[1], it[3]))
+        with ticker():
+            st = state()
+            for it in items:
+                if time.time() > deadline:
+                    acc['items_skipped'] += 1
+                    continue
+                kind = it[0]
+                if kind == 'text':
+                    st = run_cases(st, [it[1]], it[2], None, acc)
+                elif kind == 'long':
+                    st = run_cases(st, [long_input(it[1])], None, it[1], acc)
+                elif kind == 'single':
+                    st = run_cases(st, single_edits(it[2]), None, None, acc)
+                elif kind == 'double':
+                    texts = double_edits(it[2])
+                    st = run_cases(st, texts[it[3]::it[4]], None, None, acc)
+                if not deep_check(st):           # values (not only bindings) of all variables, once per item
+                    acc['nviol'] += 1
+                    what = 'variables-deep' if kind in ('text', 'long') else 'variables-deep(some edit of this line)'
+                    acc['viol'].append(make_violation(long_input(it[1]) if kind == 'long' else it[1 if kind == 'text' else 2],
+                                                      it[2] if kind == 'text' else None,
+                                                      it[1] if kind == 'long' else None, what, 'changed',
+                                                      'parsing changes no variable value', 'parse-changes-variables'))
+                    drop_state()
+                    st = state()
+                acc['items_done'] += 1
         acc['th'] = np.array(acc['th'], dtype=np.uint64).tobytes()
         acc['oh'] = np.array(acc['oh'], dtype=np.uint64).tobytes()
         return acc
@@ -800,13 +911,13 @@ class Totals:
 
     def add(self, part):
         t = self.t
-        for k in ('cases', 'parses', 'nviol', 'items_done', 'items_skipped', 'cases_aborted', 'timeouts'):
+        for k in ('cases', 'parses', 'nviol', 'items_done', 'items_skipped', 'cases_aborted', 'timeouts',
+                  'watchdog_false_alarms'):
             t[k] += part[k]
         for k in ('classes', 'evals'):
             for c, n in part[k].items():
                 t[k][c] = t[k].get(c, 0) + n
         t['viol'].extend(part['viol'])
-        t['done_ids'].extend(part['done_ids'])
         if part['max_ratio'] > t['max_ratio'] or (part['max_ratio'] == t['max_ratio']
                                                   and part['max_ratio_text'] < t['max_ratio_text']):
             t['max_ratio'], t['max_ratio_text'] = part['max_ratio'], part['max_ratio_text']
@@ -854,8 +965,8 @@ def skeleton_representatives(lines, max_tokens):
 def run(cfg):
     rep = runner.Report('C12', 'exploration')
     t0 = time.time()
-    deadline = t0 + cfg.pick(120, 560)
-    timeouts = multiprocessing.get_context('fork').Value('i', 0)
+    deadline = t0 + cfg.pick(300, 560)        # safety net; items not started by then are reported, exhaustive = false
+    timeouts = multiprocessing.get_context('fork').RawValue('i', 0)
     work = make_worker(deadline, timeouts)
     tot = Totals()
     phases = {}
@@ -945,13 +1056,13 @@ def run(cfg):
         'max_calls_single_parse': T['max_calls'],
         'max_calls_per_char_inputs_over_1000_chars': round(T['max_calls_per_char'], 2),
         'watchdog_hits': T['timeouts'],
+        'watchdog_hits_not_repeated_with_3x_time': T['watchdog_false_alarms'],
     }
     rep.assumptions = [
         'work measure: executions of call instructions in Python code (sys.monitoring CALL events, the 3.12 form of '
         'sys.setprofile call + c_call); work inside one C call (string slicing, str.index, int()) is linear in the '
         'input and not counted; loops without any call are bounded by the %gs watchdog only' % PARSE_TIMEOUT,
-        'in phase (b) only the first of the two parses is counted against the budget (the second runs under the '
-        'watchdog and must reproduce the first tree); in (a) and (c) both are counted and must do equal work',
+        'both parses of a case are counted against the budget; evidence reports the counts of the first',
         'a Python RecursionError on deeply nested input is an error raised after bounded work',
         'one parse interpreter and two evaluation interpreters per worker process, reset before every case (start '
         'module; user context, caches and module of the evaluation twins); every violation is re-established on '
@@ -981,7 +1092,7 @@ def replay(cfg, path):
     print('text (%d chars): %r' % (len(text), text[:200]))
     print('start module:', module)
     st = State()
-    viol, info = check_case(st, text, module, True, True)
+    viol, info = check_case(st, text, module, True)
     print('calls (first parse): %d  budget: %d' % (info['calls'], BUDGET_FACTOR * (len(text) + 2) ** 2))
     print('outcome class:', info['class'], ' evaluation:', info['eval'])
     for v in viol:
